@@ -210,9 +210,11 @@ type scripted struct {
 	authGas types.Gas
 	outs    []PVM.RefineOutput
 	offsets []int
+	code    []byte
 }
 
 func (m *scripted) Psi_I(p types.WorkPackage, c types.CoreIndex, code types.ByteSequence) PVM.Psi_I_ReturnType {
+	m.code = append([]byte{}, code...)
 	return PVM.Psi_I_ReturnType{WorkExecResult: types.WorkExecResultOk, WorkOutput: append([]byte(nil), m.authOut...), Gas: m.authGas}
 }
 
@@ -372,7 +374,7 @@ func runProcess(out *vfd.Out, ci int, c map[string]any) {
 	}
 	rec := map[string]any{"ev": "process", "c": ci, "k": k, "flaw": flaw, "mode": vfd.S(c["mode"]), "core": vfd.I(c["core"]),
 		"auth": len(wp.Authorization), "cfg": len(wp.AuthorizerConfig), "items": itemsEcho, "outs": outsEcho, "dict": dict, "erasure": erasure, "fetch": fetchEcho,
-		"data": vfd.B(vfd.Bytes(c["data"])), "authout": vfd.B(vfd.Bytes(c["authout"])), "authgas": vfd.B(vfd.Bytes(c["authgas"])),
+		"data": vfd.B(vfd.Bytes(c["data"])), "code": vfd.B(vfd.Bytes(c["code"])), "authout": vfd.B(vfd.Bytes(c["authout"])), "authgas": vfd.B(vfd.Bytes(c["authgas"])),
 		"want_pa": vfd.B(vfd.EvalTerm(c["want_pa"])), "want_ys": wantYs, "want_root": vfd.B(vfd.EvalTerm(c["want_root"])), "nsegs": vfd.I(c["nsegs"])}
 	core := types.CoreIndex(vfd.I(c["core"]))
 	data := vfd.Bytes(c["data"])
@@ -443,7 +445,7 @@ func runProcess(out *vfd.Out, ci int, c map[string]any) {
 		"results": results, "h": vfd.B(rep.PackageSpec.Hash[:]), "l": le(uint64(rep.PackageSpec.Length), 4), "n": int(rep.PackageSpec.ExportsCount),
 		"root": vfd.B(rep.PackageSpec.ExportsRoot[:]), "core": int(rep.CoreIndex), "pa": vfd.B(rep.AuthorizerHash[:]),
 		"authgas": le(uint64(rep.AuthGasUsed), 8), "authout": vfd.B(rep.AuthOutput), "ctx_in": encode(&wp.Context), "ctx_out": encode(&rep.Context),
-		"lookup": lookup, "offsets": m1.offsets, "calls": f1.calls, "dict_after": dictOut(), "rep": encode(&rep)}
+		"lookup": lookup, "authcode": vfd.B(m1.code), "offsets": m1.offsets, "calls": f1.calls, "dict_after": dictOut(), "rep": encode(&rep)}
 
 	// pass 2: a second guarantor works from the bundle of pass 0 on an identically seeded node
 	seed()
